@@ -319,13 +319,19 @@ fn generate(seed: u64, n: usize, _tier: &str, out: &mut dyn Write) {
             outs: match rng.below(4) { 0 => vec![d], 1 => vec![c, d], 2 => vec![d, c], _ => vec![b, c] },
         }
     };
-    let mutate = |rng: &mut SplitMix64, r: &mut Req, class: u64| {
+    // `cols`: the value of the symbolic dimension n used by this line's requests, so that values
+    // reaching the real kernels stay shape-compatible (kernel errors are outside C26's scope)
+    let mutate = |rng: &mut SplitMix64, r: &mut Req, class: u64, cols: usize| {
         let unknown = n_nodes + 3 + rng.below(4) as u32;
         let an_op = ops[rng.below(4) as usize];
         if r.ins.is_empty() && class != 0 && class < 16 {
             return;
         }
         let j = rng.below(r.ins.len().max(1) as u64) as usize;
+        // the intermediate value `a` has no metadata: its dtype/shape reach the kernels unchecked
+        if (10..=14).contains(&class) && r.ins.get(j).map(|i| i.id == a).unwrap_or(false) {
+            return;
+        }
         match class {
             1 => { let mut i = r.ins[0].clone(); i.id = unknown; r.ins.push(i); }
             2 => { let mut i = r.ins[0].clone(); i.id = an_op; r.ins.push(i); }
@@ -335,7 +341,7 @@ fn generate(seed: u64, n: usize, _tier: &str, out: &mut dyn Write) {
             6 if !r.outs.is_empty() => { let v = r.outs[0]; r.outs.push(v); }
             7 => { r.ins.remove(j); }
             8 => r.ins.clear(),
-            9 => { let cols = r.ins[0].shape.get(1).copied().unwrap_or(3); r.ins.push(InputSpec { id: a, dtype: 0, shape: vec![2, cols], seq: false, owned: rng.chance(1, 2), fill: 1 }); }
+            9 => { r.ins.push(InputSpec { id: a, dtype: 0, shape: vec![2, cols], seq: false, owned: rng.chance(1, 2), fill: 1 }); }
             10 => r.ins[j].dtype = (r.ins[j].dtype + 1 + rng.below(3) as u8) % 4,
             11 => r.ins[j].seq = !r.ins[j].seq,
             12 => r.ins[j].shape.push(1),
@@ -357,9 +363,9 @@ fn generate(seed: u64, n: usize, _tier: &str, out: &mut dyn Write) {
             let cols = 1 + rng.below(4) as usize;
             let b0 = base(&mut rng, cols);
             let mut cold = b0.clone();
-            mutate(&mut rng, &mut cold, class);
+            mutate(&mut rng, &mut cold, class, cols);
             let mut warm = b0.clone();
-            mutate(&mut rng, &mut warm, class);
+            mutate(&mut rng, &mut warm, class, cols);
             let reqs = [cold, b0.clone(), warm, b0];
             let r: Vec<String> = reqs.iter().map(fmt_req).collect();
             writeln!(out, "{}", r.join("/")).unwrap();
@@ -372,7 +378,7 @@ fn generate(seed: u64, n: usize, _tier: &str, out: &mut dyn Write) {
             let mut r = base(&mut rng, cols);
             for _ in 0..rng.below(3) {
                 let cl = rng.below(22);
-                mutate(&mut rng, &mut r, cl);
+                mutate(&mut rng, &mut r, cl, cols);
             }
             reqs.push(r);
         }
